@@ -184,10 +184,12 @@ def replay(path):
     case = json.load(open(path))["case"]
     s = Allow()
     ctx, model = s.fresh()
+    rc = 0
     for op in case["history"]:
         model, obs = s.apply(ctx, model, op)
         print(op, "->", model)
         for sig, d in s.check(ctx, model, op, obs):
             print("   MISMATCH", sig, d)
+            rc = 1
     s.fresh()
-    return 0
+    return rc
